@@ -4,8 +4,8 @@
    real C++ on every check (see prop.py). *)
 From Coq Require Import ZArith List Bool Permutation.
 From MomoCommon Require Import GenPrelude.
-From C08 Require Gen_GrowCapacity Gen_ArrayBucket Gen_ArrayBucket_cnt Gen_ArrayBucket_s Gen_HashMultiMap Gen_VersionCheck Gen_VersionCheck_a Gen_WrapEq Gen_WrapErase.
-From C08 Require Import GenWrapPrims ArrayBucketModel GenRefine GenWrapRefine MultiMapModel WrapperModel VersionModel Examples.
+From C08 Require Gen_GrowCapacity Gen_ArrayBucket Gen_ArrayBucket_cnt Gen_ArrayBucket_s Gen_HashMultiMap Gen_VersionCheck Gen_VersionCheck_a Gen_WrapEq Gen_WrapErase Gen_AB_ops Gen_AB_copy.
+From C08 Require Import GenWrapPrims ArrayBucketModel GenRefine GenSkeleton GenWrapRefine MultiMapModel WrapperModel VersionModel Examples.
 Import ListNotations.
 Local Open Scope Z_scope.
 
@@ -561,3 +561,58 @@ Theorem C08_checked_iterator_designates_same_pair :
   all_pairs (fst (fst (vstep1 M c o))) = all_pairs (fst (fst c)).
 Proof. exact checked_iterator_designates_same_pair. Qed.
 Print Assumptions C08_checked_iterator_designates_same_pair.
+
+(* ------------------------------------------------------------------ grow round 4: generated control skeletons of ArrayBucket *)
+(* AddBackCrt (regenerated; element work skipped, every branch and every state-byte write kept): for a null or pooled bucket the
+   model's add_back IS what the skeleton computes (which pool, in place, or to the heap: state byte 0) *)
+Theorem C08_gen_add_back_skeleton :
+  forall (M : Z) (r : repr), 0 < M < 16 -> repr_inv M r ->
+  match r with
+  | RNull | RFast _ =>
+      add_back M r = match gen_add M r with
+                     | Ok (_, st', _) => if st' =? 0 then RHeap (M * 2) (rcount r + 1) else RFast st'
+                     | _ => RStuck
+                     end
+  | RHeap _ _ => gen_add M r = Ok (tt, -1, -1)
+  | RStuck => True
+  end.
+Proof. exact add_back_via_generated. Qed.
+Print Assumptions C08_gen_add_back_skeleton.
+
+(* RemoveBack: assertion, count == 1 -> pvRemoveAll, in-place decrement, shrink rule (count*2 iff 2 < count <= capacity/4) *)
+Theorem C08_gen_remove_back_skeleton :
+  forall (M : Z) (r : repr), repr_inv M r -> r <> RNull -> 1 <= rcount r -> r_cap r <= 2 ^ 62 ->
+  remove_back r =
+  match gen_remove M r with
+  | Ok (_, st', sh') =>
+      if rcount r =? 1 then remove_all r
+      else match r with
+           | RFast _ => RFast st'
+           | RHeap cap cnt => RHeap (if sh' =? -1 then cap else shrink_cap cap sh' (cnt - 1)) (cnt - 1)
+           | _ => RStuck
+           end
+  | _ => RStuck
+  end.
+Proof. exact remove_back_via_generated. Qed.
+Print Assumptions C08_gen_remove_back_skeleton.
+
+(* the copy constructor: state byte = pvMakeState(pvGetFastMemPoolIndex(count), count); the source's byte is not even read *)
+Theorem C08_gen_copy_constructor_skeleton :
+  forall (M n : Z), 0 < M < 16 -> 0 <= n ->
+  match Gen_AB_copy.copy_ctor M 8192 4096 (-1) (-1) n with
+  | Ok (_, p', st', ptr') =>
+      copy_repr M n = (if n =? 0 then (if p' =? 0 then RNull else RStuck)
+                       else if st' =? 0 then RHeap n n else RFast st')
+  | _ => n <= M /\ False
+  end.
+Proof. exact copy_ctor_via_generated. Qed.
+Print Assumptions C08_gen_copy_constructor_skeleton.
+
+(* CheckIterator's VersionKeeper::Check(version, allowEmpty) *)
+Theorem C08_gen_version_check_cont :
+  forall (mem : Z -> Z) (ptr ver version : Z) (allowEmpty : bool), version <> 0 ->
+  Gen_VersionCheck.Check_cont mem ptr ver version allowEmpty =
+  if allowEmpty && (ptr =? 0) then Ok tt
+  else if (ptr =? version) && (ver =? mem version) then Ok tt else Exn.
+Proof. exact gen_version_check_cont. Qed.
+Print Assumptions C08_gen_version_check_cont.
